@@ -13,6 +13,17 @@ def kindOfStr : String → R Kind
   | "neighbouring" => pure .neighbouring | "chemical_hybrid" => pure .hybrid
   | s => throw s!"unknown kind {s}"
 
+def geneOfJson (i : Nat) (j : Json) : R Gene := do
+  return ⟨i, ← locOfJson (← fld j "loc"), ← listOf asStr (← fld j "products")⟩
+
+/-- a protocluster of a record with real CDS features: `defs` through the model of
+    `add_cds` / `definition_cdses` -/
+def protoOfJsonGenes (genes : List Gene) (i : Nat) (j : Json) : R Proto := do
+  let product := match j.getObjVal? "product" with
+    | .ok (.str s) => s
+    | _ => s!"p{i}"
+  return mkProto i (← locOfJson (← fld j "loc")) (← locOfJson (← fld j "core")) product (boolFD j "sideloaded" false) genes
+
 def protoOfJson (i : Nat) (j : Json) : R Proto := do
   let defs ← listOf asNat (← fld j "defs")
   let product := match j.getObjVal? "product" with
@@ -46,7 +57,11 @@ def handle (j : Json) : R Json := do
   let w := intFD j "wrap" 0
   let wrap : Option Int := if w = 0 then none else some w
   let psJ ← arrF j "ps"
-  let ps ← (psJ.zipIdx).mapM fun (x : Json × Nat) => protoOfJson x.2 x.1
+  let ps ← match j.getObjVal? "genes" with
+    | .ok (.arr gs) => do
+      let genes ← (gs.toList.zipIdx).mapM fun (x : Json × Nat) => geneOfJson x.2 x.1
+      (psJ.zipIdx).mapM fun (x : Json × Nat) => protoOfJsonGenes genes x.2 x.1
+    | _ => (psJ.zipIdx).mapM fun (x : Json × Nat) => protoOfJson x.2 x.1
   let len := if w = 0 then maxList (0 :: ps.map (·.loc.end)) else w
   let model := formation ps wrap
   let modelJ := match model with
@@ -64,6 +79,7 @@ def handle (j : Json) : R Json := do
       pure (checks ps wrap cs)
     | _ => pure Json.null
   return jObj [("model", modelJ), ("spec", specJ), ("on_model", onModel), ("on_impl", onImpl),
+               ("defs", toJson (ps.map (·.defs))),
                ("scope", toJson (ps.all (protoOK w len))), ("linear", toJson (w == 0))]
 
 end ASV.Drv.C05
